@@ -434,4 +434,204 @@ theorem OFO.ct_track_shut (m : OFO) (kids : List (Nat × Nat)) (h : OFO.TInv m k
     simp only at this
     rw [hnil] at this; simp at this
 
+
+/-- childTerminated for an exit that belongs to no child (fresh pid, empty name), in normal operation:
+nothing is hit, everybody is told to stop -/
+theorem OFO.ct_track_foreign (m : OFO) (kids : List (Nat × Nat)) (h : OFO.TInv m kids) (hsd : m.shutdown = false)
+    (np : Nat) (hnp0 : np ≠ 0) (hfresh : ∀ p, p ∈ keys kids → p < np) (r : Reason) (now : Int) :
+    OFO.TInv (m.childTerminated 0 np r now).1 kids ∧
+    ∃ a, (m.childTerminated 0 np r now).2 = .ok a ∧ OFO.TGood (m.childTerminated 0 np r now).1 kids a := by
+  have ⟨hN, hN2⟩ := h.normal hsd
+  have hnohit : ∀ c, c ∈ m.spec → hit 0 np c = false := by
+    intro c hc
+    simp only [hit, Bool.or_eq_false_iff, beq_eq_false_iff_ne]
+    refine ⟨h.nz c hc, ?_⟩
+    intro hp
+    have : np ∈ keys kids := (hN np).mpr ⟨hnp0, c, hc, hp⟩
+    exact absurd (hfresh np this) (Nat.lt_irrefl _)
+  have hspec : (scan 0 np 0 m.spec).spec = m.spec := by
+    rw [scan_spec_eq]
+    conv => rhs; rw [← List.map_id m.spec]
+    apply List.map_congr_left
+    intro c hc; simp [hnohit c hc]
+  have hrun : ∀ p, p ∈ (scan 0 np 0 m.spec).running ↔ p ∈ keys kids := by
+    intro p
+    rw [scan_running_mem, hN p]
+    constructor
+    · rintro ⟨c, hc, _, hp0, rfl⟩; exact ⟨hp0, c, hc, rfl⟩
+    · rintro ⟨hp0, c, hc, rfl⟩; exact ⟨c, hc, hnohit c hc, hp0, rfl⟩
+  have hfn : (scan 0 np 0 m.spec).found = none := by
+    cases hf : (scan 0 np 0 m.spec).found with
+    | none => rfl
+    | some x =>
+      obtain ⟨j, sp⟩ := x
+      obtain ⟨_, d0, hd0, hhit, _⟩ := scan_found_some 0 np 0 m.spec j sp hf
+      have := hnohit d0 (List.mem_of_getElem? hd0)
+      rw [this] at hhit; simp at hhit
+  unfold OFO.childTerminated
+  simp only [hsd, Bool.false_eq_true, if_false, hfn]
+  unfold OFO.stopAll
+  split
+  · rename_i hlen
+    have hnil : (scan 0 np 0 m.spec).running = [] := List.length_eq_zero_iff.mp hlen
+    refine ⟨?_, _, rfl, ?_⟩
+    · constructor
+      · simp only [hspec]; exact h.names
+      · simp only [hspec]; exact h.nz
+      · simp only [hspec]; exact h.pinj
+      · intro _; simp only [hspec]; exact ⟨hN, hN2⟩
+      · intro hx; simp at hx
+    · simp only [OFO.TGood]
+      refine ⟨by simp, ?_⟩
+      intro e he
+      refine ⟨fun hx => by simp at hx, ?_⟩
+      intro p hp
+      have := (hrun p).mpr hp
+      rw [hnil] at this; simp at this
+  · rename_i hlen
+    refine ⟨?_, _, rfl, ?_⟩
+    · constructor
+      · simp only [hspec]; exact h.names
+      · simp only [hspec]; exact h.nz
+      · simp only [hspec]; exact h.pinj
+      · intro hx; simp at hx
+      · intro _
+        refine ⟨?_, by simp⟩
+        intro p; simp only [mem_mkSet]; exact hrun p
+    · simp only [OFO.TGood]
+      constructor
+      · intro hemp
+        have : (scan 0 np 0 m.spec).running = [] := List.isEmpty_iff.mp hemp
+        rw [this] at hlen; simp at hlen
+      · intro _ _
+        cases hr : (scan 0 np 0 m.spec).running with
+        | nil => rw [hr] at hlen; simp at hlen
+        | cons a t => exact ⟨a, (hrun a).mp (by rw [hr]; simp)⟩
+
+
+/-! ### starting a child -/
+
+theorem mem_set_cases {l : List ChildSpec} {i : Nat} {e c : ChildSpec} (h : c ∈ l.set i e) : c = e ∨ c ∈ l := by
+  rcases List.mem_or_eq_of_mem_set h with h1 | h1
+  · exact Or.inr h1
+  · exact Or.inl h1
+
+theorem mem_set_of_ne {l : List ChildSpec} {i : Nat} {e sp c : ChildSpec} (hi : l[i]? = some sp) (hc : c ∈ l) (hne : c ≠ sp) :
+    c ∈ l.set i e := by
+  obtain ⟨k, hk⟩ := List.mem_iff_getElem?.mp hc
+  have hik : i ≠ k := by
+    intro e'; subst e'; rw [hi] at hk; simp at hk; exact hne hk.symm
+  exact List.mem_iff_getElem?.mpr ⟨k, by rw [List.getElem?_set_ne hik]; exact hk⟩
+
+theorem mem_set_self {l : List ChildSpec} {i : Nat} {e sp : ChildSpec} (hi : l[i]? = some sp) : e ∈ l.set i e := by
+  have hlt : i < l.length := (List.getElem?_eq_some_iff.mp hi).1
+  exact List.mem_iff_getElem?.mpr ⟨i, by simp [List.getElem?_set, hlt]⟩
+
+theorem map_name_set {l : List ChildSpec} {i : Nat} {e sp : ChildSpec} (hi : l[i]? = some sp) (hn : e.name = sp.name) :
+    (l.set i e).map (·.name) = l.map (·.name) := by
+  apply List.ext_getElem?
+  intro k
+  simp only [List.getElem?_map, List.getElem?_set]
+  by_cases hik : i = k
+  · subst hik
+    have ⟨hlt, hget⟩ := List.getElem?_eq_some_iff.mp hi
+    simp [hlt, hn, hget]
+  · simp [hik]
+
+/-- the state after `childStarted` for a valid start of a spec that has no child, with a fresh pid -/
+theorem OFO.started_tinv (m : OFO) (kids : List (Nat × Nat)) (h : OFO.TInv m kids) (hsd : m.shutdown = false)
+    (i np : Nat) (sp e : ChildSpec) (hi : m.spec[i]? = some sp) (hsp0 : sp.pid = 0) (hen : e.name = sp.name) (hep : e.pid = np)
+    (hnp0 : np ≠ 0) (hfresh : ∀ p, p ∈ keys kids → p < np)
+    (m' : OFO) (hs : m'.spec = m.spec.set i e) (hsd' : m'.shutdown = false) :
+    OFO.TInv m' ((np, e.name) :: kids) := by
+  have ⟨hN, hN2⟩ := h.normal hsd
+  have hspm : sp ∈ m.spec := List.mem_of_getElem? hi
+  -- a spec with a non-zero pid is not `sp`, and its pid is old (smaller than np)
+  have hold : ∀ c, c ∈ m.spec → c.pid ≠ 0 → c ≠ sp ∧ c.pid < np := by
+    intro c hc hp
+    refine ⟨fun e' => by rw [e', hsp0] at hp; exact hp rfl, ?_⟩
+    exact hfresh _ ((hN c.pid).mpr ⟨hp, c, hc, rfl⟩)
+  constructor
+  · rw [hs, map_name_set hi hen]; exact h.names
+  · intro c hc
+    rw [hs] at hc
+    rcases mem_set_cases hc with rfl | hc
+    · rw [hen]; exact h.nz sp hspm
+    · exact h.nz c hc
+  · intro c1 c2 h1 h2 heq hne
+    rw [hs] at h1 h2
+    rcases mem_set_cases h1 with h1e | h1 <;> rcases mem_set_cases h2 with h2e | h2
+    · rw [h1e, h2e]
+    · have := (hold c2 h2 (by rw [← heq]; exact hne)).2
+      rw [← heq, h1e, hep] at this; exact absurd this (Nat.lt_irrefl _)
+    · have := (hold c1 h1 hne).2
+      rw [heq, h2e, hep] at this; exact absurd this (Nat.lt_irrefl _)
+    · exact h.pinj c1 c2 h1 h2 heq hne
+  · intro _
+    constructor
+    · intro p
+      rw [mem_keys_cons, hN p]
+      constructor
+      · rintro (rfl | ⟨hp0, c, hc, hcp⟩)
+        · exact ⟨hnp0, e, by rw [hs]; exact mem_set_self hi, hep⟩
+        · exact ⟨hp0, c, by rw [hs]; exact mem_set_of_ne hi hc (hold c hc (by rw [hcp]; exact hp0)).1, hcp⟩
+      · rintro ⟨hp0, c, hc, hcp⟩
+        rw [hs] at hc
+        rcases mem_set_cases hc with rfl | hc
+        · left; rw [← hcp, hep]
+        · right; exact ⟨hp0, c, hc, hcp⟩
+    · intro p n' hpn
+      rcases List.mem_cons.mp hpn with heq | hpn
+      · simp only [Prod.mk.injEq] at heq
+        exact ⟨e, by rw [hs]; exact mem_set_self hi, heq.2.symm, by rw [hep, heq.1]⟩
+      · obtain ⟨c, hc, hcn, hcp⟩ := hN2 p n' hpn
+        have hp0 : p ≠ 0 := ((hN p).mp (by simp [keys]; exact ⟨n', hpn⟩)).1
+        exact ⟨c, by rw [hs]; exact mem_set_of_ne hi hc (hold c hc (by rw [hcp]; exact hp0)).1, hcn, hcp⟩
+  · intro hx; rw [hsd'] at hx; simp at hx
+
+
+theorem OFO.childStarted_unfold (m : OFO) (cs : ChildSpec) (np : Nat) (sp : ChildSpec)
+    (hsp : m.spec[cs.i]? = some sp) (hn : sp.name = cs.name) :
+    m.childStarted cs np =
+      (let s1 : OFO := { m with spec := m.spec.set cs.i { sp with args := cs.args, pid := np } }
+       if s1.mode ≠ 1 then (s1, .ok {})
+       else if cs.i = s1.spec.length - 1 then ({ s1 with mode := 0 }, .ok {})
+       else match findStart (cs.i + 1) 0 s1.spec with
+         | some (k, c) => (s1, .ok { act := .start, spec := { c with i := k } })
+         | none => (s1, .ok {})) := by
+  unfold OFO.childStarted
+  simp only [hsp]
+  rw [if_neg (by simp [hn])]
+  rfl
+
+/-- childStarted keeps the tracking invariant; what it asks next is again a good action (the loop of handleAction) -/
+theorem OFO.childStarted_track (m : OFO) (kids : List (Nat × Nat)) (h : OFO.TInv m kids) (a : Action)
+    (hg : m.shutdown = false ∧ OFO.ValidStart m a ∧ ∃ c : ChildSpec, m.spec[a.spec.i]? = some c ∧ c.pid = 0)
+    (np : Nat) (hnp0 : np ≠ 0) (hfresh : ∀ p, p ∈ keys kids → p < np) :
+    OFO.TInv (m.childStarted a.spec np).1 ((np, a.spec.name) :: kids) ∧
+    ∃ a', (m.childStarted a.spec np).2 = .ok a' ∧ OFO.TGood (m.childStarted a.spec np).1 ((np, a.spec.name) :: kids) a' ∧
+      (a'.act = .nothing ∨ a'.act = .start) := by
+  obtain ⟨hsd, ⟨sp, hsp, hn⟩, c0, hc0, hz⟩ := hg
+  have hsp0 : sp.pid = 0 := by rw [hsp] at hc0; simp at hc0; rw [hc0]; exact hz
+  rw [OFO.childStarted_unfold m a.spec np sp hsp hn]
+  have hT : ∀ m' : OFO, m'.spec = m.spec.set a.spec.i { sp with args := a.spec.args, pid := np } → m'.shutdown = false →
+      OFO.TInv m' ((np, a.spec.name) :: kids) := by
+    intro m' hs hsd'
+    have := OFO.started_tinv m kids h hsd a.spec.i np sp { sp with args := a.spec.args, pid := np } hsp hsp0 rfl rfl hnp0 hfresh m' hs hsd'
+    simp only at this
+    rw [hn] at this
+    exact this
+  simp only
+  split
+  · exact ⟨hT _ rfl hsd, _, rfl, by simp [OFO.TGood, OFO.Live, hsd], Or.inl rfl⟩
+  · split
+    · exact ⟨hT _ rfl hsd, _, rfl, by simp [OFO.TGood, OFO.Live, hsd], Or.inl rfl⟩
+    · split
+      · rename_i k c hfs
+        have hfs' := findStart_spec (a.spec.i + 1) _ 0 k c hfs
+        refine ⟨hT _ rfl hsd, _, rfl, ?_, Or.inr rfl⟩
+        simp only [OFO.TGood]
+        exact ⟨hsd, ⟨c, by simpa using hfs'.2.2.1, rfl⟩, c, by simpa using hfs'.2.2.1, hfs'.2.2.2.1⟩
+      · exact ⟨hT _ rfl hsd, _, rfl, by simp [OFO.TGood, OFO.Live, hsd], Or.inl rfl⟩
+
 end ErgoVerif.Sup
